@@ -35,4 +35,10 @@ CHECKS['C12'] = {'technique': MS + '; handler-mode write-set queries', 'engine':
 CHECKS['C15'] = {'technique': MS + '; inductive invariant (one step from an arbitrary state satisfying Inv)', 'engine': 'mirsym',
     'text': 'Bounded symbolic verification: PanicState::{pause, unpause, unpause_if_expired} from MIR, one step from any state satisfying the stated invariant at any later time preserves it; each pause pushes the paused-until time by <= 30 min, never > 60 min ahead, daily counter resets only after >= 24h; is_expired depends on (flag,start,now) only; the four pause instructions in handler mode (admin unpause never fails while flagged, permissionless unpause iff expired, propagate copies verbatim). The invariant replaces the region graph: all interleavings and timings are covered by induction.',
     'note': _H + ' Timestamps in [0, 2^62).'}
+CHECKS['C10'] = {'technique': MS + '; symbolic instruction lists up to a stated length (list/iterator models, closures executed from MIR)', 'engine': 'mirsym',
+    'text': 'Bounded symbolic verification: validate_ix_first / validate_ix_last / validate_ixes_exclusive on fully symbolic instruction lists (length <= 4 quick, <= 6 thorough) against an independent reference predicate; validate_instructions wiring (constants, allow-lists, both not-CPI checks, error propagation); start/end receivership (snapshot, flag, health no worse, premium bound with the 5% floor, $5 closeout exception).',
+    'note': _H + ' Lists longer than the bound and CPI-reachability of inner withdraw/repay through whitelisted foreign programs are outside the claim.'}
+CHECKS['C11'] = {'technique': MS + '; handler-mode trace queries', 'engine': 'mirsym',
+    'text': 'Bounded symbolic verification: check_flashloan_can_start with a fully symbolic named instruction (index order, not-CPI x2, program id, discriminator, target account, flag exclusions); end_flashloan clears the flag before the full initial-margin check and propagates its error; RiskEngine::new refuses flagged accounts; check_account_init_health skips only for the flag; bankruptcy / start-liquidation constraints exclude flagged accounts.',
+    'note': _H + ' The sysvar byte parser is trusted; short data (< 8 bytes) panics (fail closed).'}
 NOT_APPLICABLE = {}
